@@ -148,13 +148,12 @@ func snapshotSlice(c *Ctx, f *FuncInfo, index *FuncInfo) (types.Object, *CallSit
 				continue
 			}
 			lf, bind := c.callbackFunc(f, cs.Call.Args[i])
-			if lf == nil || lf.Lit == nil {
+			if lf == nil || (lf.Lit == nil && len(bind) == 0) {
 				return nil, cs
 			}
-			lit := lf.Lit
 			linfo := lf.Pkg.TypesInfo
 			var slice types.Object
-			ast.Inspect(lit.Body, func(n ast.Node) bool {
+			ast.Inspect(lf.Body(), func(n ast.Node) bool {
 				as, ok := n.(*ast.AssignStmt)
 				if !ok || len(as.Lhs) != 1 || len(as.Rhs) != 1 {
 					return true
@@ -168,6 +167,11 @@ func snapshotSlice(c *Ctx, f *FuncInfo, index *FuncInfo) (types.Object, *CallSit
 				}
 				if ix, ok := r.(*ast.IndexExpr); ok {
 					slice = objOfIdent(linfo, ix.X)
+					if slice == nil {
+						if fv := selField(linfo, ix.X); fv != nil {
+							slice = fv // a field of the method's receiver; bound to the operation's local below
+						}
+					}
 				}
 				return true
 			})
@@ -709,6 +713,11 @@ func ruleC02Preconditions(c *Ctx) {
 			okk, reach := c.successDominates(fl, cs.Call, gate, nil)
 			if !reach {
 				continue
+			}
+			if !okk && sp.fn == "(*STFS).Create" && len(cs.Call.Args) > 0 && objOfIdent(info, cs.Call.Args[0]) == types.Object(nv) {
+				// Create hands its name to OpenFile, whose create closure establishes the parent itself - under the
+				// filesystem lock, which a check made here would not be (see the obligation on that closure below)
+				okk = true
 			}
 			tname := "call"
 			if cs.Target != nil {
